@@ -172,7 +172,8 @@ pub fn replay_trace(ctx: &Ctx, st: &UState, wait: bool, eof_instead_of_quit: boo
         if *cmd == Cmd::Quit {
             break;
         }
-        if !s.send(&text) {
+        // `isready` itself is sent by the barrier below (one readyok per isready)
+        if *cmd != Cmd::IsReady && !s.send(&text) {
             viol("process-died", json!({"at": text}), &s);
             return;
         }
